@@ -1530,7 +1530,8 @@ theorem normKind_spec (emb : Bytes → Option Bytes) (hemb : ∀ x y, emb x = so
     simp only [normKind] at h
     split at h
     · split at h <;> simp at h
-      subst h; rename_i hc; simp [normKind, hc]
+      subst h; rename_i hc
+      simp only [normKind, hc, and_self, if_true, and_true]
     · simp at h
   | notationData =>
     simp only [normKind] at h
